@@ -339,11 +339,21 @@ func message(e Entry) string {
 
 var baseTime = time.Date(2021, 3, 4, 5, 6, 7, 0, time.UTC)
 
+// wipe zeroises a key buffer the way the services do with utils.ZeroizeSymmetricKey once they have handed
+// the key to the logging package: whatever the package needs later it must have derived or copied by then.
+func wipe(b []byte) {
+	for i := range b {
+		b[i] = 0
+	}
+}
+
 func newHandler(format string, key []byte, out io.Writer) (*logging.AuditLogHandler, error) {
-	hooks, err := logging.NewHooks(append([]byte(nil), key...), format)
+	kc := append([]byte(nil), key...)
+	hooks, err := logging.NewHooks(kc, format)
 	if err != nil {
 		return nil, err
 	}
+	wipe(kc) // as acra-server and acra-translator do right after initialising the hooks
 	formatter := logging.CreateCryptoFormatter(format)
 	formatter.SetServiceName("acra-server")
 	formatter.SetHooks(hooks)
@@ -385,7 +395,9 @@ func writeLog(c Case) (buf []byte, meta logMeta, err error) {
 			if newChainPending {
 				meta.chainStart = append(meta.chainStart, lines())
 			}
-			h.ResetChain(append([]byte(nil), c.Key...))
+			kc := append([]byte(nil), c.Key...)
+			h.ResetChain(kc)
+			wipe(kc) // the services zeroise the key right after resetting the chain (SIGUSR1 path)
 			markEnd()
 			newChainPending = true
 		case "restart":
